@@ -457,6 +457,7 @@ MUT_WHERE = [
 
 
 def drv_mutators(tier, seed):
+  random.seed(f'c14/drv_mutators/{seed}')   # code under test falls back to the global RNG
   quick = tier == 'quick'
   rec = Recorder(
       'C14', 'mutators Uniform / Swap: closure, alignment, inputs, determinism',
@@ -480,6 +481,29 @@ def drv_mutators(tier, seed):
             exercise(rec, f'mutators.{cls}', src, name,
                      [p], allowed=(RuntimeError,) if (w and cls == 'Uniform') else (),
                      min_out=1, max_out=1)
+    # `where` restricts what may change.
+    for p in pop[:2]:
+      key = (name, raw(p), 'where')
+      wpre = HDR + pop_src(name, [p])
+      try:
+        c = make(f'mutators.Swap(where=lambda d: False, seed={seed})')([p])[0]
+        ok, msg = raw(c) == raw(p), f'{p!r} -> {c!r} although no node is mutable'
+      except Exception as e:  # pylint: disable=broad-except
+        ok, msg = False, f'{type(e).__name__}: {e}'
+      rec.case('mutators.Swap.where-respected', key, ok, msg,
+               wpre + f'c = mutators.Swap(where=lambda d: False, seed={seed})(pop)[0]\nassert c == pop[0], c')
+      try:
+        c = make(f'mutators.Uniform(where={MUT_WHERE[1]}, seed={seed})')([p])[0]
+        a, b = p.to_dict(key_type='dna_spec'), c.to_dict(key_type='dna_spec')
+        changed = [k for k in set(a) | set(b) if a.get(k) != b.get(k)]
+        ok = all(isinstance(k, pg.geno.Float) for k in changed)
+        msg = f'{p!r} -> {c!r}: non-float decisions {[str(k.id) for k in changed]} changed'
+      except RuntimeError:
+        ok, msg = True, ''
+      except Exception as e:  # pylint: disable=broad-except
+        ok, msg = False, f'{type(e).__name__}: {e}'
+      rec.case('mutators.Uniform.where-respected', key, ok, msg,
+               wpre + f'c = mutators.Uniform(where={MUT_WHERE[1]}, seed={seed})(pop)[0]\nprint(pop[0], c)')
     # Two parents at once (mutate_list) and the mutate() entry point.
     for cls in ('Uniform', 'Swap'):
       src = f'mutators.{cls}(seed={seed})'
@@ -573,6 +597,7 @@ def recombinator_sources(s, tier):
 
 
 def drv_recombinators(tier, seed):
+  random.seed(f'c14/drv_recombinators/{seed}')   # code under test falls back to the global RNG
   quick = tier == 'quick'
   rec = Recorder(
       'C14', 'recombinators (point-wise, segment-wise, permutation): closure, '
@@ -691,6 +716,7 @@ def _ids(xs):
 
 
 def drv_selectors(tier, seed):
+  random.seed(f'c14/drv_selectors/{seed}')   # code under test falls back to the global RNG
   quick = tier == 'quick'
   rec = Recorder(
       'C14', 'selectors return only members of the input, in the documented number/order',
@@ -828,11 +854,11 @@ def rand_expr(r, depth):
     return (k, r.choice([0, 1, 2, 3, 5, 0.5, None]))
   k = r.choice(['pipe', 'cat', 'union', 'inter', 'diff', 'xor', 'rep', 'pow', 'inv',
                 'neg', 'slice', 'ift', 'iff', 'prob', 'choice', 'lam', 'cond', 'until',
-                'union3', 'gs'])
+                'union3', 'inter3', 'gs'])
   a = rand_expr(r, depth - 1)
   if k in ('pipe', 'cat', 'union', 'inter', 'diff', 'xor'):
     return (k, a, rand_expr(r, depth - 1))
-  if k == 'union3':
+  if k in ('union3', 'inter3'):
     return (k, a, rand_expr(r, depth - 1), rand_expr(r, depth - 1))
   if k in ('rep', 'pow'):
     return (k, a, r.randrange(len(KS)))
@@ -873,6 +899,8 @@ def expr_src(e):
     return f'({a} {sym[k]} {expr_src(e[2])})'
   if k == 'union3':
     return f'base.Union([{a}, {expr_src(e[2])}, {expr_src(e[3])}])'
+  if k == 'inter3':
+    return f'base.Intersection([{a}, {expr_src(e[2])}, {expr_src(e[3])}])'
   if k == 'rep':
     return f'({a} * {KS[e[2]][0]})'
   if k == 'pow':
@@ -937,12 +965,11 @@ def expr_ref(e, xs, step):
         if not _isin(x, out):
           out.append(x)
     return out
-  if k == 'inter':
-    a = expr_ref(e[1], xs, step)
-    b = expr_ref(e[2], xs, step)
-    if len(set(_ids(a))) != len(a) or len(set(_ids(b))) != len(b):
+  if k in ('inter', 'inter3'):
+    outs = [expr_ref(sub, xs, step) for sub in e[1:]]
+    if any(len(set(_ids(o))) != len(o) for o in outs):
       _DUP_INTER[0] = True
-    return [x for x in a if _isin(x, b)]
+    return [x for x in outs[0] if all(_isin(x, o) for o in outs[1:])]
   if k == 'diff':
     b = expr_ref(e[2], xs, step)
     return [x for x in expr_ref(e[1], xs, step) if not _isin(x, b)]
@@ -1010,6 +1037,7 @@ def has_limit0(e):
 
 
 def drv_algebra(tier, seed):
+  random.seed(f'c14/drv_algebra/{seed}')   # code under test falls back to the global RNG
   quick = tier == 'quick'
   rec = Recorder(
       'C14', 'operator composition algebra vs reference interpreter (by identity)',
@@ -1047,7 +1075,10 @@ def drv_algebra(tier, seed):
     exprs.append(('choice', [(('first', 3), 1.0), (('last', 2), 0.0), (('top', 1), 1.0)], lim))
     exprs.append(('choice', [(('last', 3), 1.0), (('bottom', 2), 1.0), (('top', 1), 1.0)], lim))
   exprs.append(('union3', ('first', 1), ('last', 1), ('top', 1)))
-  extra = [('inter', ('first', 2), ('rep', ('id',), 2)),
+  extra = [('inter3', ('first', 3), ('top', 3), ('last', 4)),
+           ('inter3', ('id',), ('first', 2), ('bottom', 3)),
+           ('inter3', ('top', 4), ('id',), ('last', 2)),
+           ('inter', ('first', 2), ('rep', ('id',), 2)),
            ('inter', ('rep', ('first', 2), 2), ('id',)),
            ('inter', ('id',), ('cat', ('first', 2), ('top', 3))),
            ('diff', ('rep', ('id',), 2), ('first', 1)),
@@ -1152,6 +1183,7 @@ def reward_of(d, multi):
 
 
 def drv_pipelines(tier, seed):
+  random.seed(f'c14/drv_pipelines/{seed}')   # code under test falls back to the global RNG
   quick = tier == 'quick'
   rec = Recorder(
       'C14', 'composed pipelines and shipped algorithms keep closure/inputs/determinism',
@@ -1287,6 +1319,7 @@ def _flatten_ref(lst, max_level, level=0):
 
 
 def drv_flatten_foreach(tier, seed):
+  random.seed(f'c14/drv_flatten_foreach/{seed}')   # code under test falls back to the global RNG
   del tier
   rec = Recorder(
       'C14', 'Flatten / ElementWise (for_each) vs reference on nested lists',
